@@ -20,7 +20,7 @@ if [ $build -eq 0 ] && [ $tests -eq 0 ]; then
 import json
 p='/verif/seeded/$name/meta.json'
 m=json.load(open(p)); m['at_head']='neutral'; m['kind']='behaviour-preserving'
-m['confirmed']={'by':'tools/benigncheck.sh in a scratch worktree','build_ok':True,'existing_tests_of_touched_packages_pass_with_change':'$pkgs'.split()}
+m["confirmed"]={"by":"tools/benigncheck.sh in a scratch worktree","build_ok":True,"existing_tests_of_touched_packages_pass_with_change":"""$pkgs""".split()}
 json.dump(m,open(p,'w'),indent=1)
 PY
   echo "CONFIRMED $name"
